@@ -1,14 +1,14 @@
 // ===== prelude/time.rs : std::time::{Instant, Duration} as mathematical nanosecond counts.
 // Machine arithmetic treated as mathematical here (listed in every evidence file): std's Instant/Duration
 // panic on overflow of a 2^64-second range; that range is not modelled. Durations are non-negative by
-// construction (every constructor and operator below yields ns >= 0 from ns >= 0 operands);
+// construction (the nanosecond count is a natural number);
 // `Instant - Instant` saturates at zero as in std (since Rust 1.60).
 #[derive(Clone, Copy)]
-pub struct Duration { pub ns: Ghost<int> }
+pub struct Duration { pub ns: Ghost<nat> }
 #[derive(Clone, Copy)]
 pub struct Instant { pub ns: Ghost<int> }
 
-pub open spec fn dur(n: int) -> Duration { Duration { ns: Ghost(n) } }
+pub open spec fn dur(n: int) -> Duration { Duration { ns: Ghost(if n >= 0 { n as nat } else { 0nat }) } }
 pub open spec fn inst(n: int) -> Instant { Instant { ns: Ghost(n) } }
 
 impl Duration {
@@ -17,7 +17,7 @@ impl Duration {
     #[verifier::external_body]
     pub fn from_millis(s: u64) -> (r: Duration) ensures r.ns@ == s as int * 1_000_000 { unimplemented!() }
     #[verifier::external_body]
-    pub fn mul_f32(self, f: f32) -> (r: Duration) ensures r == dur_mul_f32(self, f), r.ns@ >= 0 { unimplemented!() }
+    pub fn mul_f32(self, f: f32) -> (r: Duration) ensures r == dur_mul_f32(self, f) { unimplemented!() }
     #[verifier::external_body]
     pub fn is_zero(&self) -> (r: bool) ensures r == (self.ns@ == 0) { unimplemented!() }
 }
@@ -62,7 +62,7 @@ impl core::ops::Sub<Instant> for Instant {
 impl vstd::std_specs::ops::AddSpecImpl<Duration> for Duration {
     open spec fn obeys_add_spec() -> bool { true }
     open spec fn add_req(self, rhs: Duration) -> bool { true }
-    open spec fn add_spec(self, rhs: Duration) -> Duration { dur(self.ns@ + rhs.ns@) }
+    open spec fn add_spec(self, rhs: Duration) -> Duration { dur(self.ns@ as int + rhs.ns@ as int) }
 }
 impl core::ops::Add<Duration> for Duration {
     type Output = Duration;
@@ -72,7 +72,7 @@ impl core::ops::Add<Duration> for Duration {
 impl vstd::std_specs::ops::MulSpecImpl<u32> for Duration {
     open spec fn obeys_mul_spec() -> bool { true }
     open spec fn mul_req(self, rhs: u32) -> bool { true }
-    open spec fn mul_spec(self, rhs: u32) -> Duration { dur(self.ns@ * rhs as int) }
+    open spec fn mul_spec(self, rhs: u32) -> Duration { dur(self.ns@ as int * rhs as int) }
 }
 impl core::ops::Mul<u32> for Duration {
     type Output = Duration;
@@ -82,7 +82,7 @@ impl core::ops::Mul<u32> for Duration {
 impl vstd::std_specs::ops::DivSpecImpl<u32> for Duration {
     open spec fn obeys_div_spec() -> bool { true }
     open spec fn div_req(self, rhs: u32) -> bool { rhs != 0 }
-    open spec fn div_spec(self, rhs: u32) -> Duration { dur(self.ns@ / rhs as int) }
+    open spec fn div_spec(self, rhs: u32) -> Duration { dur(self.ns@ as int / rhs as int) }
 }
 impl core::ops::Div<u32> for Duration {
     type Output = Duration;
@@ -129,7 +129,7 @@ impl PartialEq for Duration {
 impl Eq for Duration {}
 impl vstd::std_specs::cmp::PartialOrdSpecImpl for Duration {
     open spec fn obeys_partial_cmp_spec() -> bool { true }
-    open spec fn partial_cmp_spec(&self, other: &Duration) -> Option<core::cmp::Ordering> { Some(spec_ord(self.ns@, other.ns@)) }
+    open spec fn partial_cmp_spec(&self, other: &Duration) -> Option<core::cmp::Ordering> { Some(spec_ord(self.ns@ as int, other.ns@ as int)) }
 }
 impl PartialOrd for Duration {
     #[verifier::external_body]
